@@ -189,6 +189,7 @@ func (hs *serverHandshakeStateTLS13) processClientHello() error {
 			break
 		}
 	}
+	hs.suite = verifHookServerSuite13(c, hs.clientHello.cipherSuites, hs.suite)
 	if hs.suite == nil {
 		c.sendAlert(alertHandshakeFailure)
 		return errors.New("tls: no cipher suite supported by both client and server")
@@ -209,6 +210,7 @@ func (hs *serverHandshakeStateTLS13) processClientHello() error {
 	preferredGroups = slices.DeleteFunc(preferredGroups, func(group CurveID) bool {
 		return !slices.Contains(hs.clientHello.supportedCurves, group)
 	})
+	preferredGroups = verifHookServerGroups13(c, hs.clientHello.supportedCurves, preferredGroups)
 	if len(preferredGroups) == 0 {
 		c.sendAlert(alertHandshakeFailure)
 		return errors.New("tls: no key exchanges supported by both client and server")
